@@ -23,13 +23,14 @@ FMT = '%{filename}|%{cmdline}|%{tid_kernel}|%{snoopy_threads}'
 def run_fork(arg):
     bld, stop_at, kind, victims, out, child_kind, root, idx = arg[:8]
     heap = len(arg) > 8 and arg[8]          # C16's fork arm: allocator monitor loaded, child reports Snoopy's live blocks
+    extra = arg[9] if len(arg) > 9 else ""  # further config lines (C16: options given twice)
     work = os.path.join(root, "f%04d" % idx)
     conf = os.path.join(work, "conf")
     os.makedirs(conf, exist_ok=True)
     logp = os.path.join(work, "log")
     outspec = {"file": "file:" + logp, "devlog": "devlog", "socket": "socket:" + os.path.join(work, "nosock"), "stdout": "stdout"}[out]
     with open(os.path.join(conf, "snoopy.ini"), "w") as f:
-        f.write('[snoopy]\nmessage_format = "%s"\noutput = %s\n' % (FMT, outspec))
+        f.write('[snoopy]\n%smessage_format = "%s"\noutput = %s\n' % (extra, FMT, outspec))
     env = {"PATH": "/usr/bin:/bin", "LD_PRELOAD": "%s %s" % (bld.lib, os.path.join(HBIN, "libvrec.so")), "VREC_DEVLOG": os.path.join(work, "nodevlog")}
     if heap:
         env["LD_PRELOAD"] += " " + os.path.join(HBIN, "libvheap.so")
@@ -56,6 +57,8 @@ def run_fork(arg):
             with open(os.path.join(work, "childheap")) as f:
                 hp = json.loads(f.read())
                 ev["child_heap"] = hp["snoopy_live"]
+                ev["child_bad_frees"] = hp.get("snoopy_bad_frees", 0)
+                ev["child_bad_free_bt"] = hp.get("bad_free_bt", [])
                 ev["child_blocks"] = hp["blocks"]
         except (OSError, ValueError):
             ev["child_heap"] = None
